@@ -16,9 +16,13 @@ from gsa.absint import Lin, fm_infeasible
 from gsa.facts import Unit, rel, AnalysisBroken
 from gsa.report import Check
 
+import os
+import re
+
 UNITS = [Unit('misc', 'misc_pat.cpp', ['src/Persistent_cohomology/include/gudhi/Persistence_on_rectangle.h',
                                        'src/Persistent_cohomology/include/gudhi/Persistence_on_a_line.h'],
-              no_inst=True)]
+              no_inst=True),
+         Unit('probe', 'static_probe.cpp', [os.path.join(facts.VERIF, 'drivers', 'static_probe.cpp')], no_inst=True)]
 HR = 'src/Persistent_cohomology/include/gudhi/Persistence_on_rectangle.h'
 HL = 'src/Persistent_cohomology/include/gudhi/Persistence_on_a_line.h'
 
@@ -745,6 +749,59 @@ def run_line(chk, F):
     chk.expect_count('E10-comparator', 'comparator calls', n_cmp, 8)
 
 
+def run_no_state(chk, F):
+    """E6a-stateless: both routines are functions of their input ("for all inputs"): the two headers keep no object of
+    static or thread storage duration that is not const - a recycled workspace makes the answer depend on the calls
+    made before on the same thread. The extractor's view of such objects is checked on every run against a positive
+    control (drivers/static_probe.cpp: a function-local thread_local object and a static data member)."""
+    probe = [v for v in F.staticvars if v['file'].endswith('static_probe.cpp') and not v['const'] and not v['constexpr']]
+    if len(probe) < 2:
+        raise AnalysisBroken('C14: the extractor no longer reports the static objects of the positive control '
+                             '(%d seen)' % len(probe))
+    chk.count('positive-control static objects seen', len(probe))
+    bad = [v for v in F.staticvars if not v['file'].endswith('static_probe.cpp') and not v['const'] and
+           not v['constexpr'] and not v.get('emptytype')]
+    for hdr, name in ((HR, 'Persistence_on_rectangle.h'), (HL, 'Persistence_on_a_line.h')):
+        mine = [v for v in bad if v['file'].endswith(name)]
+        problems = []
+        for v in mine:
+            # a recycled object of one of the header's own classes is harmless exactly when the entry point
+            # re-initialises, as a whole, every container member (resize / reserve keep the old content)
+            cls = [c for c in F.classes if c.get('name') and c['file'].endswith(name) and
+                   re.match(r'(const )?%s\b' % re.escape(c['name']), (v.get('t') or ''))]
+            if not cls:
+                problems.append('line %s: `%s` of type %s%s: what a call leaves in it is seen by the next call' % (
+                    v['line'], v['qual'], (v.get('t') or '?')[:60], ' (thread_local)' if v.get('tls') else ''))
+                continue
+            c = cls[0]
+            inits = [f for f in F.functions if f.get('clsname') == c['name'] and f['name'] == 'init' and
+                     f.get('body') is not None]
+            if not inits:
+                problems.append('line %s: `%s` is recycled between calls and %s has no init()' % (
+                    v['line'], v['qual'], c['name']))
+                continue
+            for fld in c.get('fields', []):
+                ft = fld.get('t') or ''
+                if not re.search(r'\b(vector|deque|list|map|set|unordered_\w+|string)\s*<', ft):
+                    continue
+                whole = False
+                for x in ir.walk(inits[0]['body']):
+                    if ir.is_call(x) and ir.call_name(x) in ('assign', 'clear', 'swap') and \
+                            ir.call_receiver(x) is not None and ir.show(ir.call_receiver(x)) == fld['n']:
+                        whole = True
+                    t = ir.write_target(x)
+                    if t is not None and x.get('op') == '=' and ir.show(t) == fld['n']:
+                        whole = True
+                if not whole:
+                    problems.append('line %s: `%s` (%s) is recycled between calls on a thread and init() does not '
+                                    're-initialise the member `%s` as a whole (resize / reserve keep what the '
+                                    'previous call left)' % (v['line'], v['qual'], 'thread_local' if v.get('tls')
+                                                             else 'static', fld['n']))
+        chk.ob('E6a-stateless', '%s: no state survives a call (no mutable static object, or a recycled workspace whose '
+               'containers init() resets as a whole)' % name, hdr, not problems, '; '.join(problems[:3]),
+               key='E6a|%s|stateless%s' % (name, ('|' + mine[0]['qual']) if problems else ''))
+
+
 def run(tier, replay=None):
     chk = Check('C14', tier,
                 'Static decision of structural clauses of the specialised routines. 2-D: fill_and_pair is evaluated '
@@ -765,6 +822,7 @@ def run(tier, replay=None):
     run_corners(chk, fps[0], top, F)
     run_union_find(chk, F)
     run_line(chk, F)
+    run_no_state(chk, F)
     # Edge::operator< is the strict order on the edge value
     eo = [f for f in F.functions if f['name'] == 'operator<' and f.get('clsname') == 'Edge']
     if len(eo) == 1:
